@@ -55,3 +55,28 @@ pub(crate) fn burn_fuel() -> Result<(), crate::story_error::StoryError> {
         None => Ok(()),
     })
 }
+
+thread_local! {
+    static ASYNC_BUDGET: Cell<Option<u64>> = const { Cell::new(None) };
+}
+
+/// Virtual clock for `continue_async`: the time-limited continue pauses after
+/// this many interpreter steps, exactly as if its wall-clock limit had run out.
+pub fn set_async_budget(steps: Option<u64>) {
+    ASYNC_BUDGET.with(|b| b.set(steps));
+}
+
+/// Called once per step of a time-limited continue; `true` = "time is up".
+pub(crate) fn async_tick() -> bool {
+    ASYNC_BUDGET.with(|b| match b.get() {
+        Some(n) if n <= 1 => {
+            b.set(None);
+            true
+        }
+        Some(n) => {
+            b.set(Some(n - 1));
+            false
+        }
+        None => false,
+    })
+}
